@@ -33,7 +33,8 @@ NONE = M.NONE
 # (0, '', False, None, empty list / tuple), strings, a non-integral number
 OPAQUE = [I(0), I(1), NONE, ['s', ''], ['s', 'a'], ['b', False], ['l', []], ['t', []], ['q', 1, 2]]
 # values with pairwise different python equality (no bool next to 0/1): usable as keys
-KEYLIKE = [I(0), I(1), I(-1), NONE, ['s', ''], ['s', 'a'], ['t', []], ['t', [I(0)]]]
+KEYLIKE = [I(0), I(1), I(-1), I(-2), NONE, ['s', ''], ['s', 'a'], ['t', []], ['t', [I(0)]],
+           ['t', [I(-1)]], ['t', [I(-2)]]]     # hash(-1) == hash(-2) in CPython
 
 
 def mux_case(pipe, src, **kw):
@@ -46,6 +47,21 @@ def src_case(pipe, items, **kw):
     d = {'pipe': pipe, 'mode': 'src', 'src': items}
     d.update(kw)
     return d
+
+
+def shared_inner_cases(rng, n, mk, items=None):
+    """two composite operators in sequence that are given the same inner pipeline (the same
+    python list in the untapped run), built from the same operator objects"""
+    cases = []
+    for _ in range(n):
+        inn = rng.choice([[], [G.op_simple('last')], [G.op_simple('take', n=2)]])
+        pipe = [mk(rng, inn), mk(rng, inn)]
+        if items is None:
+            lts = rand_lifetimes(rng, rng.choice([1, 2]), 9, vals=range(5))
+        else:
+            lts = [(idx, items(rng)) for idx in rng.sample([0, 1, 4], rng.choice([1, 2]))]
+        cases.append(mux_case(pipe, G.schedule(rng, lts), share_ops=True))
+    return cases
 
 
 def rand_lifetimes(rng, nkeys, maxlen, vals=(-2, -1, 0, 1, 2, 3, 4), reuse=0.3, idxs=(0, 1, 2, 5, 9)):
@@ -132,6 +148,12 @@ def cases_c05(rng, thorough):
         ])
         lts = rand_lifetimes(rng, rng.choice([1, 2]), 10, vals=range(6))
         cases.append(mux_case([outer], G.schedule(rng, lts)))
+    # windows longer than anything small: counters and slot numbers beyond one byte
+    big = [(260, 260, 530), (258, 129, 400)] + ([(300, 300, 700), (257, 300, 620)] if thorough else [])
+    for (w, s, n) in big:
+        cases.append(mux_case([G.op_roll(w, s, [])], G.key_stream(0, G.ints([i % 7 for i in range(n)]))))
+    cases += shared_inner_cases(rng, 24 if thorough else 8,
+                                lambda r, inn: G.op_roll(r.randint(1, 3), r.randint(1, 3), inn))
     return cases
 
 
@@ -150,8 +172,8 @@ def nontrivial_c05(t):
 
 def cases_c04(rng, thorough):
     cases = []
-    variants = [None, 'bigint', 'tuple', 'str', 'float']
-    kfs = [('modc', 2), ('modc', 3), ('id', 0)]
+    variants = [None, 'bigint', 'tuple', 'str', 'float', 'altfloat']
+    kfs = [('modc', 2), ('modc', 3), ('id', 0), ('addc', -3)]     # addc -3: negative keys (-1, -2 collide as hashes)
     maxlen = 5 if thorough else 4
     for (f, c) in kfs:
         for xs in seqs(range(4), maxlen):
@@ -182,6 +204,8 @@ def cases_c04(rng, thorough):
         xs = [rng.randint(0, 60) for _ in range(rng.randint(20, 80))]
         cases.append(src_case([G.op_group_by('id', 0, [G.op_simple('to_list')],
                                              rng.choice(variants))], G.ints(xs)))
+    cases += shared_inner_cases(rng, 24 if thorough else 8,
+                                lambda r, inn: G.op_group_by('modc', r.choice([2, 3]), inn))
     return cases
 
 
@@ -203,8 +227,8 @@ def nontrivial_c04(t):
 
 def cases_c06(rng, thorough):
     cases = []
-    preds = [('divc', 2), ('modc', 2), ('modc', 3), ('noneIf', 1)]   # noneIf: None as a predicate value
-    variants = [None, 'bigint', 'tuple', 'str']
+    preds = [('divc', 2), ('modc', 2), ('modc', 3), ('noneIf', 1), ('addc', -3)]   # noneIf: None as a predicate value
+    variants = [None, 'bigint', 'tuple', 'str', 'altfloat']
     maxlen = 6 if thorough else 5
     for (f, c) in preds:
         for xs in seqs(range(4), maxlen):
@@ -235,6 +259,8 @@ def cases_c06(rng, thorough):
     for _ in range(10 if thorough else 4):
         xs = [rng.randint(0, 5) for _ in range(rng.randint(0, 40))]
         cases.append(src_case([G.op_split('divc', 2, [G.op_simple('to_list')], 'str')], G.ints(xs)))
+    cases += shared_inner_cases(rng, 24 if thorough else 8,
+                                lambda r, inn: G.op_split('divc', r.choice([2, 3]), inn))
     return cases
 
 
@@ -262,8 +288,8 @@ def ts_items(gaps_flags):
 
 def cases_c07(rng, thorough):
     cases = []
-    cfgs = [(a, i, cl, inc) for a in (-1, 2, 3) for i in (-1, 1, 2) for cl in (False, True)
-            for inc in (True, False) if cl or inc]
+    cfgs = [(a, i, cl, inc) for a in (-1, 0, 2, 3) for i in (-1, 0, 1, 2) for cl in (False, True)
+            for inc in (True, False) if cl or inc]       # 0: a zero duration is a timeout too
     maxlen = 4 if thorough else 3
     steps = [(g, c) for g in range(4) for c in (False, True)]
     for (a, i, cl, inc) in cfgs:
@@ -288,6 +314,10 @@ def cases_c07(rng, thorough):
                 lts.append((idx, ts_items(gf)))
         pipe = [op] if rng.random() < 0.6 else [G.op_group_by('fstmodc', 2, [op])]
         cases.append(mux_case(pipe, G.schedule(rng, lts), timescale=rng.choice([None, 'datetime'])))
+    cases += shared_inner_cases(
+        rng, 24 if thorough else 8,
+        lambda r, inn: G.op_time_split(r.choice([-1, 2, 3]), r.choice([-1, 1, 2]), True, r.random() < 0.5, inn),
+        items=lambda r: ts_items([(r.choice([0, 1, 1, 2, 3]), r.random() < 0.3) for _ in range(r.randint(0, 8))]))
     return cases
 
 
@@ -398,6 +428,8 @@ def scan_ops():
         ops.append(G.op_scan('appendMut', L0, reduce=red, seedfactory=True))
         ops.append(G.op_scan('appendNew', L0, reduce=red))
         ops.append(G.op_scan('max', NONE, reduce=red))
+        # a factory seed says nothing about the type of later accumulators
+        ops.append(G.op_scan('last', I(0), reduce=red, seedfactory=True))
         ops.append(G.op_scan('failAdd', I(0), reduce=red, c=2))
         ops.append({'op': 'count', 'reduce': red})
         for o in ('sum', 'min', 'max', 'mean'):
@@ -428,6 +460,10 @@ def cases_c09(rng, thorough):
         streams = [G.key_stream(0, G.ints([1, 2][:max(minlen, 2)])), G.key_stream(3, G.ints([2]))]
         for src in G.all_interleavings(streams, cap=None if thorough else 12, rng=rng):
             cases.append(mux_case([op], src))
+        if op['op'] == 'duc' and op['f']['n'] == 'id':
+            for _ in range(12 if thorough else 4):     # None / falsy / colliding-hash keys first
+                lts = [(idx, [rng.choice(KEYLIKE) for _ in range(rng.randint(0, 5))]) for idx in (0, 2)]
+                cases.append(mux_case([op], G.schedule(rng, lts)))
         if op['op'] in ('to_list', 'batch', 'progress') or \
                 (op['op'] == 'scan' and op['f']['n'] in ('appendMut', 'appendNew', 'last')) or \
                 (op['op'] == 'count'):
@@ -475,8 +511,11 @@ def nontrivial_c09(t):
 def seq_ops():
     ops = [G.op_simple('first'), G.op_simple('last')]
     ops += [G.op_simple('take', n=n) for n in (0, 1, 2, 5)]
-    ops += [G.op_simple('distinct', f=fn('id')), G.op_simple('duc', f=fn('id'))]
-    ops += [G.op_simple('lag', n=n) for n in (1, 2, 4)]
+    ops += [G.op_simple('distinct', f=fn('id')), G.op_simple('duc', f=fn('id')),
+            G.op_simple('distinct', f=fn('addc', -3)), G.op_simple('duc', f=fn('addc', -3)),
+            G.op_simple('distinct', f=fn('modc', 2), variant='altfloat'),
+            G.op_simple('duc', f=fn('modc', 2), variant='altfloat')]
+    ops += [G.op_simple('lag', n=n) for n in (0, 1, 2, 4)]
     for n in (0, 1, 3):
         for v in (NONE, I(9)):
             ops.append(G.op_simple('pad_start', n=n, v=v))
@@ -488,10 +527,14 @@ def seq_ops():
 
 def cases_c10(rng, thorough):
     cases = []
-    vals = [I(0), I(1), I(2), NONE]
+    vals0 = [I(0), I(1), I(2), NONE]
     maxlen = 5 if thorough else 4
-    space = [list(t) for n in range(maxlen + 1) for t in itertools.product(vals, repeat=n)]
+    space0 = [list(t) for n in range(maxlen + 1) for t in itertools.product(vals0, repeat=n)]
+    ivals = [I(0), I(1), I(2), I(3)]
+    ispace = [list(t) for n in range(maxlen + 1) for t in itertools.product(ivals, repeat=n)]
     for op in seq_ops():
+        intonly = op['op'] in ('distinct', 'duc') and op['f']['n'] != 'id'   # integer key functions
+        vals, space = (ivals, ispace) if intonly else (vals0, space0)
         sp = space
         if not thorough and len(sp) > 45:
             sp = [s for s in space if len(s) <= 2] + rng.sample([s for s in space if len(s) > 2], 24)
@@ -499,7 +542,7 @@ def cases_c10(rng, thorough):
             cases.append(mux_case([op], G.key_stream(rng.choice([0, 2]), xs)))
         # falsy / non-integer items: the operators are value-agnostic (distinct and
         # distinct_until_changed compare with ==: key-like values only)
-        pool = KEYLIKE if op['op'] in ('distinct', 'duc') else OPAQUE
+        pool = ivals if intonly else KEYLIKE if op['op'] in ('distinct', 'duc') else OPAQUE
         for _ in range(40 if thorough else 10):
             xs = [rng.choice(pool) for _ in range(rng.randint(0, 6))]
             cases.append(mux_case([op], G.key_stream(rng.choice([0, 2]), xs)))
@@ -593,11 +636,16 @@ def nontrivial_c11(t):
 def cases_c13(rng, thorough):
     cases = []
     failing = [
-        ('map', lambda: G.op_map('failIf', 2)),
-        ('starmap', None),
-        ('filter', lambda: G.op_filter('failIfP', 2)),
-        ('scan', lambda: G.op_scan('failAdd', I(0), c=2)),
-        ('scan-reduce', lambda: G.op_scan('failAdd', I(0), reduce=True, c=2)),
+        ('map', lambda: [G.op_map('failIf', 2)]),
+        # (x, x) -> x + x, fails with a TypeError-family exception (code 2) where the sum is 2
+        ('starmap', lambda: [G.op_map('dup'), {'op': 'starmap', 'f': fn('failAdd2', 2)}]),
+        ('filter', lambda: [G.op_filter('failIfP', 2)]),
+        ('scan', lambda: [G.op_scan('failAdd', I(0), c=2)]),
+        ('scan-reduce', lambda: [G.op_scan('failAdd', I(0), reduce=True, c=2)]),
+        # the failing operator inside a branch of a tee_map (not the last / the last one)
+        ('tee-first', lambda: [G.op_tee('merge', [[G.op_map('failIf', 2)], [G.op_map('addc', 10)]])]),
+        ('tee-last', lambda: [G.op_tee('zip', [[G.op_map('addc', 10)], [G.op_filter('failIfP', 2)]])]),
+        ('tee-mid', lambda: [G.op_tee('combine_latest', [[], [G.op_scan('failAdd', I(0), c=2)], [G.op_map('addc', 10)]])]),
     ]
     handlers = [
         ('none', None), ('ignore', lambda: G.op_simple('ignore')),
@@ -615,10 +663,12 @@ def cases_c13(rng, thorough):
         if mk is None:
             continue
         for hname, hk in handlers:
-            for down in (downstream if thorough else rng.sample(downstream, 3)):
+            anyds = [d for d in downstream if not (d and d[0]['op'] == 'scan')] \
+                if fname in ('tee-last', 'tee-mid') else downstream     # tuples come out of zip / combine_latest
+            for down in (anyds if thorough else rng.sample(anyds, 3)):
                 sp = space if thorough else rng.sample(space, 12) + [[2], [2, 2], [1, 2], [2, 1]]
                 for xs in sp:
-                    pipe = [mk()] + ([hk()] if hk else []) + (down if hk else [])
+                    pipe = mk() + ([hk()] if hk else []) + (down if hk else [])
                     if hk is None:
                         # unhandled: surfaces as on_error where the stream is demultiplexed
                         cases.append(src_case(pipe, G.ints(xs)))
@@ -628,7 +678,7 @@ def cases_c13(rng, thorough):
                         cases.append(mux_case(pipe, G.key_stream(rng.choice([0, 3]), G.ints(xs))))
                 # two interleaved keys
                 for _ in range(6 if thorough else 2):
-                    pipe = [mk()] + ([hk()] if hk else []) + (down if hk else [])
+                    pipe = mk() + ([hk()] if hk else []) + (down if hk else [])
                     if hk is None:
                         continue
                     lts = [(idx, G.ints([rng.choice([1, 2, 3]) for _ in range(rng.randint(0, 6))]))
@@ -662,7 +712,7 @@ C13_OPS = ('map', 'starmap', 'filter', 'scan', 'ignore', 'errmap', 'router')
 def relevant_c13(n):
     return any(n == o + '-output' for o in C13_OPS) or n.startswith('router-dead-letter') or \
         n.startswith('fatal-error-') or n == 'unexpected-stream-error' or \
-        n.endswith('-demux-output')
+        n.endswith('-demux-output') or n == 'tee-error-passage'
 
 
 def nontrivial_c13(t):
@@ -1282,7 +1332,8 @@ def main(prop):
             if c.get('mode') == 'mux' and 'multi' not in c and 'share_ops' not in c and rng.random() < 0.25:
                 c['share_ops'] = True
         stats = {}
-        traces = MC.judge(V, cases, P['relevant'], stats, family=prop)
+        traces = MC.judge(V, cases, P['relevant'], stats, family=prop,
+                          isolation=MC.tee_branches_alone if prop == 'C08' else None)
         out_of_sync = compare_with_model(traces[:len(replay_cases)], model_logs)
         if out_of_sync:
             V.note('impl_model_in_sync=false: %d of %d replayed model behaviours differ log for log from '
